@@ -1,6 +1,7 @@
 import SwcVerif.Props.C03
 import SwcVerif.Props.C03Cat
 import SwcVerif.Props.C03Gen
+import SwcVerif.Props.C03Init
 #print axioms C03.wf_of_sorted
 #print axioms C03.sort_wf
 #print axioms C03.subtree_wf
@@ -32,3 +33,16 @@ import SwcVerif.Props.C03Gen
 #print axioms C03.generated_sort_nodes_pure
 #print axioms C03.generated_link_roots_to_nearest_pure
 #print axioms C03.generated_copying_eq
+#print axioms RefineCtorInit.pad_none
+#print axioms RefineCtorInit.pad_alias
+#print axioms RefineCtorInit.pad_short
+#print axioms RefineCtorInit.pad_cast
+#print axioms RefineCtorInit.padding1d_none_ok
+#print axioms RefineCtorInit.padding1d_some_ok
+#print axioms RefineCtorInit.tree_init_eq
+#print axioms RefineCtorInit.step_ok
+#print axioms RefineCtorInit.padAll_ok
+#print axioms RefineCtorInit.tree_init_ok
+#print axioms C03.generated_padding1d_spec
+#print axioms C03.generated_tree_init_spec
+#print axioms C03.generated_tree_init_given
